@@ -1,6 +1,8 @@
 import ASV.Drv.J
 import ASV.Model.Determinism
 import ASV.Spec.Determinism
+import ASV.Model.DeterminismAreas
+import ASV.Drv.C05
 namespace ASV.Drv.C17
 open Lean ASV ASV.Drv ASV.Refine ASV.HitFilter ASV.Determinism
 
@@ -45,15 +47,17 @@ def handleAnnotate (j : Json) : R Json := do
   let existing ← listOf geneFnOfJson (fldD j "existing" (jArr []))
   let prev ← listOf asInt (fldD j "prev" (jArr []))
   let defs ← dictOfJson (← fld j "defs")
-  let domains ← listOf asInt (← fld j "domains")
-  let m := annotate existing prev defs domains
+  let newDomains ← listOf asInt (← fld j "domains")
+  let domains := domainIdsAfter prev newDomains
+  let m := annotateFull existing prev defs newDomains
   return jObj [("model", jArr (m.map geneFnToJson)),
                ("old", jArr ((annotateOld existing prev defs domains).map geneFnToJson)),
+               ("domains_after", jInts domains),
                ("scope", b true), ("nontrivial", b (defs.any fun kv => kv.2.length > 1))]
 
 def protoOfJson (j : Json) : R Proto := do
-  return ⟨← asInt (← idx j 0), ← asInt (← idx j 1), ← asInt (← idx j 2), ← asInt (← idx j 3)⟩
-def protoToJson (p : Proto) : Json := jInts [p.start, p.len, p.product, p.uid]
+  return ⟨← asInt (← idx j 0), ← asInt (← idx j 1), ← asInt (← idx j 2), ← asInt (← idx j 3), ← asInt (← idx j 4), ← asInt (← idx j 5)⟩
+def protoToJson (p : Proto) : Json := jInts [p.start, p.len, p.product, p.coreStart, p.coreEnd, p.uid]
 
 def handleUniq (j : Json) : R Json := do
   let cross ← boolF j "cross"
@@ -64,8 +68,11 @@ def handleUniq (j : Json) : R Json := do
   let tie := hasKeyTie (protoKey cross L) enum
   return jObj [("model", jArr (m.map protoToJson)),
                ("old", jArr ((uniqueProtoclustersOld enum).map protoToJson)),
+               ("nocore", jArr ((uniqueProtoclustersNoCore enum).map protoToJson)),
                ("spec", b (canonicalBy (protoKey cross L) tripleLt enum impl)),
                ("tie", b tie), ("scope", b (!tie)),
+               ("spec_nocore", b (canonicalBy (fun p : Proto => ((protoKey cross L p).1, (protoKey cross L p).2.1, (protoKey cross L p).2.2.1, (0 : Int), (0 : Int))) tripleLt enum impl)),
+               ("tie_nocore", b (hasKeyTie (fun p : Proto => ((protoKey cross L p).1, (protoKey cross L p).2.1, (protoKey cross L p).2.2.1)) enum)),
                ("nontrivial", b (enum.length > 1))]
 
 def fhitOfJson (j : Json) : R FHit := do
@@ -105,6 +112,37 @@ def handleWrite (j : Json) : R Json := do
   return jObj [("model", jArr (out.map fun e => jArr [toJson e.1.1, toJson e.1.2.1, toJson e.1.2.2, dictToJson e.2])),
                ("scope", b wf), ("nontrivial", b (groups.flatten.length > 1))]
 
+/-- `areas`: candidate formation (C05's model) and region formation (C06's model) on the
+    protoclusters the implementation built; the enumerator variants must agree with the code's order -/
+def handleAreas (j : Json) : R Json := do
+  let w := intFD j "wrap" 0
+  let wrap : Option Int := if w = 0 then none else some w
+  let psJ ← arrF j "ps"
+  let ps ← (psJ.zipIdx).mapM fun (x : Json × Nat) => ASV.Drv.C05.protoOfJson x.2 x.1
+  let summaryJ (o : Option (List (CC.Kind × List Nat))) : Json := match o with
+    | some l => jArr (l.map fun e => jArr [Json.str (ASV.Drv.C05.kindToStr e.1), toJson e.2])
+    | none => Json.null
+  let cands := candSummary (CC.formation ps wrap)
+  let candsRev := candSummary (formationE List.reverse ps wrap)
+  let candsUnsorted := candSummary (formationUnsortedE id ps wrap)
+  let candsUnsortedRev := candSummary (formationUnsortedE List.reverse ps wrap)
+  -- regions over the candidate clusters / subregions the implementation formed
+  let feat (k : Regions.Kind) (e : Json) : R Regions.Feat := do
+    return { id := ← natF e "id", kind := k, loc := ← locOfJson (← fld e "loc") }
+  let cs ← listOf (feat .cand) (fldD j "cands" (jArr []))
+  let subs ← listOf (feat .sub) (fldD j "subs" (jArr []))
+  let idsJ (o : Option (List (List Nat))) : Json := match o with
+    | some l => toJson l
+    | none => Json.null
+  let tieInj := (ps.map tieKeyOf).eraseDups.length == ps.length
+  return jObj [("cands", summaryJ cands), ("cands_rev", summaryJ candsRev),
+               ("cands_unsorted_differ", b (candsUnsorted != candsUnsortedRev)),
+               ("sections", idsJ (sectionIds (Regions.sectionsOf wrap cs subs))),
+               ("sections_rev", idsJ (sectionIds (sectionsOfE List.reverse wrap cs subs))),
+               ("scope", b tieInj), ("nontrivial", b (ps.length > 1))]
+where
+  tieKeyOf (p : CC.Proto) : String × Int × Int := (p.product, p.core.start, p.core.end)
+
 def handle (j : Json) : R Json := do
   match ← strF j "k" with
   | "names" => handleNames j
@@ -113,6 +151,7 @@ def handle (j : Json) : R Json := do
   | "uniq" => handleUniq j
   | "best" => handleBest j
   | "write" => handleWrite j
+  | "areas" => handleAreas j
   | k => throw s!"C17: unknown kind {k}"
 
 end ASV.Drv.C17
